@@ -553,6 +553,7 @@ func abandon(f *Fixture, list []Bin) {
 // with replies missing, a witness round trip decides: if the proxy answers a fresh connection promptly the
 // replies are really missing; if the witness is slow too the machine is overloaded and the wait is extended.
 func waitClients(f *Fixture, clients []*rclient.Client, want []int, deadline time.Duration) {
+	startHarnessLagWatch()
 	waitUntil := func(d time.Duration) bool {
 		end := time.Now().Add(d)
 		all := true
@@ -583,7 +584,7 @@ func waitClients(f *Fixture, clients []*rclient.Client, want []int, deadline tim
 	for round := 0; round < 3; round++ {
 		t0 := time.Now()
 		err := f.Responsive(10 * time.Second)
-		if err == nil && time.Since(t0) < 500*time.Millisecond {
+		if err == nil && time.Since(t0) < 500*time.Millisecond && !harnessStarvedWithin(deadline+2*time.Second) {
 			// the proxy is responsive: give the missing replies one short grace period
 			waitUntil(1 * time.Second)
 			return
@@ -599,6 +600,36 @@ func waitClients(f *Fixture, clients []*rclient.Client, want []int, deadline tim
 }
 
 var evidenceSlow int
+
+// harnessLag watches how late this process' own timers fire: the fake nodes live in this process, so when it is
+// starved they answer (or close) late and a missing reply says nothing about the proxy.
+var harnessLag struct {
+	once      sync.Once
+	mu        sync.Mutex
+	lastSpike time.Time
+}
+
+func startHarnessLagWatch() {
+	harnessLag.once.Do(func() {
+		go func() {
+			for {
+				t0 := time.Now()
+				time.Sleep(5 * time.Millisecond)
+				if time.Since(t0) > 250*time.Millisecond {
+					harnessLag.mu.Lock()
+					harnessLag.lastSpike = time.Now()
+					harnessLag.mu.Unlock()
+				}
+			}
+		}()
+	})
+}
+
+func harnessStarvedWithin(d time.Duration) bool {
+	harnessLag.mu.Lock()
+	defer harnessLag.mu.Unlock()
+	return !harnessLag.lastSpike.IsZero() && time.Since(harnessLag.lastSpike) < d
+}
 
 func (res *PipeResult) collect(f *Fixture, clients []*rclient.Client) *PipeResult {
 	for i, c := range clients {
